@@ -115,7 +115,10 @@ NotInner == {Call(q1(X)), Call(r1(X)), Call(t1(X)), UnifyG(X, b), UnifyG(X, Y), 
              AndG(<<Call(q1(Y)), UnifyG(Y, X)>>), Call(q1(Y)), AndG(<<pr(X), Call(r1(X))>>), NotG(Call(q1(X))),
              (* a conjunction whose first goal succeeds (binding an inner variable) but which fails as a whole *)
              AndG(<<Call(q1(X)), Call(t1(X))>>), AndG(<<Call(q1(X)), FailG>>), AndG(<<Call(q1(Y)), Call(s2(Y, Y))>>),
-             AndG(<<UnifyG(X, b), FailG>>), OrG(<<AndG(<<Call(q1(X)), FailG>>), Call(t1(X))>>)}
+             AndG(<<UnifyG(X, b), FailG>>), OrG(<<AndG(<<Call(q1(X)), FailG>>), Call(t1(X))>>),
+             (* a test AFTER the goal that instantiates its operand (the operand is only aliased when the not is reached) *)
+             AndG(<<Call(q1(X)), Bip("equal", <<X, b>>)>>), AndG(<<Call(q1(X)), Bip("less_than", <<X, b>>)>>),
+             AndG(<<UnifyG(Y, X), Call(r1(Y)), Bip("greater_than", <<X, b>>)>>)}
 NotBodies ==
        {NotG(g) : g \in NotInner}
   \cup {AndG(<<l, NotG(g)>>) : l \in {Call(q1(X)), Call(r1(X)), UnifyG(X, c)}, g \in NotInner}
@@ -250,8 +253,14 @@ VA == V("$A") VB == V("$B") VC == V("$C") VD == V("$D") VE == V("$E") VF == V("$
 LateProg == BaseFacts \o
   << Clause(Cx("late", <<X>>), AndG(<<Call(s2(VA, VB)), Call(s2(VC, VD)), Call(s2(VE, VF)), Call(s2(VG, VH)), Call(Cx("pack", <<X>>))>>)),
      Fact(Cx("pack", <<Cx("box", <<V("$Item")>>)>>)), Fact(Cx("pack", <<LstT(<<a>>, V("$Item"))>>)) >>
+(* a fact that leaves a variable of its own inside the caller's binding (box($Item)), then a clause with variables *)
+WrapProg == BaseFacts \o AliasExtra \o
+  << Fact(Cx("pack", <<Cx("box", <<V("$Item")>>)>>)), Fact(Cx("pack", <<LstT(<<a>>, V("$Item"))>>)),
+     Clause(Cx("wr", <<VA, VB>>), AndG(<<Call(Cx("pack", <<VA>>)), Call(Cx("e2", <<VB, c>>))>>)),
+     Clause(Cx("wr2", <<VA, VB>>), AndG(<<Call(Cx("pack", <<VA>>)), Call(Cx("pack", <<VB>>))>>)) >>
 ProgsAlias == PQS({BaseFacts \o AliasExtra \o <<c1_, c2_>> : c1_ \in AliasClauses, c2_ \in AliasClauses}, AliasQueries)
               \cup PQ(LateProg, {Cx("late", <<Z>>), Cx("late", <<X>>)})
+              \cup PQ(WrapProg, {Cx("wr", <<Z, W>>), Cx("wr2", <<Z, W>>), Cx("wr", <<X, Y>>)})
 
 ProgQueries == CASE Slice = "andor" -> ProgsAndOr
                  [] Slice = "cut"   -> ProgsCut
